@@ -282,3 +282,203 @@ def method_in_chain(prog, c, name: str, stop=('workchains.Stepper', 'persistence
         if name in k.methods:
             return prog.view(k.methods[name])
     return None
+
+
+def barrier_opens_when_empty(chk, rule: str) -> None:
+    """The work chain's waiting state: when the awaitable that just completed was the last one (``self._awaiting`` is empty after its
+    removal) EVERY normal way through the done-callback resolves the waiting future -- with the wake-up, or with the item's failure.
+    A further condition on the wake-up ("not while paused", "only if playing") loses it: nothing re-checks the awaitables later, the
+    stepping task sleeps on a future nobody will resolve (decision table over ``self._awaiting`` = empty; other tests explored both ways)."""
+    import ast as _ast
+    from ..decisions import paths_under
+    from ..rules import last_name as _last
+    from ..model import walk_shallow as _ws
+    prog = chk.prog
+    ad = prog.try_func('workchains.Waiting._awaitable_done')
+    if ad is None:
+        chk.ob(rule, 'workchains.Waiting._awaitable_done', False, 'the done-callback of the awaited items was not found', kind='barrier-opens-when-empty')
+        return
+    WF = waiting_future_key(prog)
+    ff = chk.ctx.facts.analyse(ad)
+    writers = {m.id for m in ff.cfg.nodes if m.expr() is not None and any(
+        isinstance(c, _ast.Call) and _last(c) in ('set_result', 'set_exception') and isinstance(c.func, _ast.Attribute) and ff.canon.key(c.func.value) == WF for c in _ws(m.expr()))}
+    lost = None
+    try:
+        for path in paths_under(ff, {'self._awaiting': False}):
+            if path[-1] is ff.cfg.exit and not any(m.id in writers for m in path):
+                lost = path
+                break
+    except RuntimeError:
+        lost = []
+    tests = [m for m in (lost or []) if m.kind == 'test']
+    chk.ob(rule, ad, bool(writers) and lost is None, 'when the last awaited item has completed every way through the done-callback resolves the waiting future (a wake-up made to depend on '
+           'anything else -- the process being paused, say -- is never made up for: the step sleeps for good)', node=tests[-1].ast if tests else None, kind='barrier-opens-when-empty')
+
+
+def context_assignment_is_any_dict(chk, rule: str) -> None:
+    """"A context assignment" is what ``isinstance(value, ToContext)`` accepts in _do_step; in this code base ``ToContext`` IS ``dict`` -- a step may
+    return ``{'key': future}`` just as well.  Turning the alias into a class of its own (a validating subclass, say) silently narrows the test: a plain
+    dict returned by a step then counts as a result and stops the chain, its awaitables are never waited for."""
+    prog = chk.prog
+    wm = prog.module('workchains')
+    v = wm.constants.get('ToContext')
+    from ..model import norm as _norm
+    ok = v is not None and _norm(v) in ('dict', 'builtins.dict')
+    how = 'an alias of dict' if ok else ('a class of its own' if 'ToContext' in wm.classes else f'bound to {_norm(v) if v is not None else "nothing at module level"}')
+    chk.ob(rule, 'workchains.ToContext', ok, f'ToContext is {how}: every dict a step returns is a context assignment (the chain waits for it and goes on)' if ok else
+           f'ToContext is {how}: a plain dict returned by a step is no longer recognised as a context assignment -- the chain stops with the dict as its result and never waits',
+           kind='context-assignment-is-dict', expr='ToContext')
+
+
+def spec_built_per_class(chk, rule: str) -> None:
+    """Process.spec(): the specification of a class is BUILT for that class -- a fresh spec object handed to ``cls.define`` -- and only the class's own
+    cached one is reused.  A spec copied from (or shared with) the class ``define`` was inherited from keeps that class's outline: its step and predicate
+    FUNCTIONS, not the overrides of the subclass; ports added by an overriding classmethod are lost the same way."""
+    import ast as _ast
+    from ..cfg import cfg_of, no_exc
+    from ..model import norm as _norm, walk_shallow as _ws
+    prog = chk.prog
+    sp = prog.func('processes.Process.spec')
+    cfg = cfg_of(sp)
+    stores = [n for n in cfg.nodes if n.kind == 'stmt' and isinstance(n.ast, (_ast.Assign, _ast.AnnAssign))
+              and _norm(n.ast.targets[0] if isinstance(n.ast, _ast.Assign) else n.ast.target) == 'cls._spec' and n.ast.value is not None]
+    fresh = [n for n in stores if _norm(n.ast.value) in ('cls._spec_class()',)]
+    chk.ob(rule, sp, bool(stores) and len(fresh) == len(stores), 'every spec installed on a class is a fresh one (cls._spec_class()), not a copy of / a reference to another class\'s'
+           + ('' if len(fresh) == len(stores) else f': {[_norm(n.ast.value) for n in stores if n not in fresh]}'),
+           node=next((n.ast for n in stores if n not in fresh), None), kind='spec-fresh-per-class')
+    defines = [n for n in cfg.nodes if n.expr() is not None and any(isinstance(c, _ast.Call) and _norm(c.func) == 'cls.define' and [_norm(a) for a in c.args] == ['cls._spec'] for c in _ws(n.expr()))]
+    ok = bool(defines) and all(cfg.must_pass(s0, [cfg.exit], lambda m: m in defines, edge_ok=no_exc) for st in stores for s0, l0 in st.succ if l0 not in ('exc', 'uncaught', 'handler'))
+    chk.ob(rule, sp, ok, 'a newly installed spec is filled in by cls.define(cls._spec) -- the define the CLASS resolves to, overrides included -- before it is returned', kind='spec-defined-by-class')
+    rets = [n for n in cfg.nodes if n.kind == 'return' and n.ast.value is not None]
+    own = lambda t: '__getattribute__(cls,' in t or 'cls.__dict__' in t or 'vars(cls)' in t
+    ok = bool(rets) and all(own(_norm(r.ast.value)) or (_norm(r.ast.value) == 'cls._spec' and cfg.must_pass(cfg.entry, [r], lambda m: m in stores, edge_ok=no_exc)) for r in rets)
+    chk.ob(rule, sp, ok, 'a cached spec is reused only when it is the class\'s OWN (looked up in the class itself, not along the MRO)', kind='spec-own-cache')
+
+
+def state_tables_built_per_class(chk, rule: str) -> None:
+    """StateMachine.__ensure_built: "already built" is asked of the class ITSELF.  A lookup that follows the MRO (``getattr(cls, 'sealed', ...)``,
+    ``cls.sealed``) finds the flag of an ancestor that was built earlier: a subclass with its own get_states()/get_state_classes() -- the work chain,
+    which swaps in its own WAITING state -- then silently keeps the ancestor's state table, depending on which class happened to be instantiated first."""
+    import ast as _ast
+    from ..model import norm as _norm
+    prog = chk.prog
+    sm = prog.cls('base.state_machine.StateMachine')
+    eb = next((f for n, f in sm.vmethods.items() if n.endswith('ensure_built')), None)
+    if eb is None:
+        chk.ob(rule, sm.qualname, False, 'the method that builds the state table of a class (..ensure_built) was not found', kind='tables-per-class')
+        return
+    flags = {t.attr for n in _ast.walk(eb.node) if isinstance(n, _ast.Assign) and isinstance(n.value, _ast.Constant) and n.value.value is True
+             for t in n.targets if isinstance(t, _ast.Attribute) and _norm(t.value) == 'cls'}
+    reads = []
+    for n in _ast.walk(eb.node):
+        if isinstance(n, _ast.Attribute) and isinstance(n.ctx, _ast.Load) and n.attr in flags and _norm(n.value) == 'cls':
+            reads.append((n, False))
+        elif isinstance(n, _ast.Call) and isinstance(n.func, _ast.Name) and n.func.id in ('getattr', 'hasattr') and len(n.args) >= 2 and isinstance(n.args[1], _ast.Constant) and n.args[1].value in flags:
+            reads.append((n, False))
+        elif isinstance(n, _ast.Call) and _norm(n.func) in ('cls.__getattribute__', 'type.__getattribute__') and len(n.args) == 2 and _norm(n.args[0]) == 'cls' and isinstance(n.args[1], _ast.Constant) and n.args[1].value in flags:
+            reads.append((n, True))
+        elif isinstance(n, (_ast.Subscript, _ast.Compare)) and ('cls.__dict__' in _norm(n) or 'vars(cls)' in _norm(n)) and any(repr(f) in _norm(n) for f in flags):
+            reads.append((n, True))
+    bad = [n for n, own in reads if not own]
+    chk.ob(rule, eb, bool(flags) and bool(reads) and not bad, 'the "already built" flag is read from the class itself (own attribute lookup), so every class builds its own state table'
+           + ('' if not bad else f': {_norm(bad[0])} follows the MRO -- a subclass instantiated after an ancestor inherits the ancestor\'s table'),
+           node=bad[0] if bad else None, kind='tables-per-class')
+
+
+def nothing_registered_before_validation(chk, rule: str) -> None:
+    """Creating a process validates its inputs while ENTERING the initial state (on_create); ``init()`` -- which subscribes the process to the communicator
+    under its pid -- runs only afterwards.  With the order reversed a construction that raises has already registered a half-built object: the pid stays
+    taken, status requests are answered by something that is not a process."""
+    import ast as _ast
+    from ..cfg import cfg_of, no_exc
+    from ..model import norm as _norm, walk_shallow as _ws
+    prog = chk.prog
+    mc = prog.func('base.state_machine.StateMachineMeta.__call__')
+    cfg = cfg_of(mc)
+
+    def has(n, pred) -> bool:
+        return n.expr() is not None and any(isinstance(c, _ast.Call) and pred(c) for c in _ws(n.expr()))
+    enters = [n for n in cfg.nodes if has(n, lambda c: isinstance(c.func, _ast.Attribute) and c.func.attr == 'transition_to' and c.args and 'create_initial_state' in _norm(c.args[0]))]
+    inits = [n for n in cfg.nodes if has(n, lambda c: (_norm(c.func).endswith('call_with_super_check') and c.args and _norm(c.args[0]).endswith('.init')) or _norm(c.func).endswith('.init'))]
+    ok = bool(enters) and bool(inits) and all(cfg.must_pass(cfg.entry, [i], lambda m: m in enters, edge_ok=no_exc) for i in inits)
+    chk.ob(rule, mc, ok, 'a new state machine enters its initial state (where a process validates its inputs) BEFORE init() runs (where it subscribes to the communicator): a rejected '
+           'construction leaves nothing registered', node=inits[0].ast if inits else None, kind='init-after-initial-state')
+    # the subscriptions are made by init(), nowhere earlier in the construction
+    proc = prog.cls('processes.Process')
+    for name in ('__init__', 'on_create'):
+        f = proc.vmethods.get(name)
+        if f is None:
+            continue
+        subs = [c for c in _ast.walk(f.node) if isinstance(c, _ast.Call) and isinstance(c.func, _ast.Attribute) and c.func.attr in ('add_rpc_subscriber', 'add_broadcast_subscriber', 'add_task_subscriber')]
+        chk.ob(rule, f, not subs, f'Process.{name} does not subscribe to the communicator (that is init()\'s job, after validation)', node=subs[0] if subs else None, kind=f'no-subscription-in:{name}')
+
+
+def every_declared_port_validated(chk, rule: str) -> None:
+    """PortNamespace.validate_ports: every iteration of the loop over the declared ports validates that port -- there is no way round the call back to the
+    loop head.  A ``continue`` for "ports that received nothing" skips exactly the checks that exist for missing values: a required port below a skipped
+    namespace, a namespace validator."""
+    import ast as _ast
+    from ..cfg import cfg_of, no_exc
+    from ..model import norm as _norm, walk_shallow as _ws
+    from ..rules import last_name as _last
+    prog = chk.prog
+    vp = prog.func('ports.PortNamespace.validate_ports')
+    cfg = cfg_of(vp)
+    its = [m for m in cfg.nodes if m.kind == 'iter' and _norm(m.ast.iter) in ('self._ports.items()', 'self.items()', 'self.ports.items()')]
+    ok = len(its) == 1
+    skipping = None
+    if ok:
+        it = its[0]
+        pvar = _norm(it.ast.target.elts[1]) if isinstance(it.ast.target, _ast.Tuple) and len(it.ast.target.elts) == 2 else 'port'
+        vals = [m for m in cfg.nodes if m.expr() is not None and any(isinstance(c, _ast.Call) and _last(c) == 'validate' and isinstance(c.func, _ast.Attribute) and _norm(c.func.value) == pvar for c in _ws(m.expr()))]
+        body = [t for t, l in it.succ if l not in ('exc', 'uncaught', 'handler') and it.id in cfg.reachable([t], edge_ok=no_exc)]
+        ok = bool(vals) and bool(body) and all(cfg.must_pass(b, [it], lambda m: m in vals, edge_ok=no_exc) for b in body)
+        if not ok:
+            skipping = next((m.ast for m in cfg.nodes if m.kind == 'stmt' and isinstance(m.ast, _ast.Continue)), None)
+    chk.ob(rule, vp, ok, 'every declared port is validated in its iteration of the loop (no way back to the loop head that skips port.validate)', node=skipping, kind='no-port-skipped')
+
+
+MUTATORS = ('append', 'extend', 'insert', 'add', 'update', 'setdefault', 'pop', 'popitem', 'remove', 'discard', 'clear')
+
+
+def no_shared_mutable_class_state(chk, rule: str, roots=('processes.Process',)) -> None:
+    """A mutable object written at CLASS level (``_cleanups = []``) is one object for all instances.  It is harmless as long as every instance gets its own
+    before anything is put into it; if a method mutates ``self.<attr>`` in place and neither ``__init__`` nor ``init`` installs a fresh one on every path, the
+    instances share it -- one process's cleanups (its unsubscriptions!) are run when ANOTHER process terminates."""
+    import ast as _ast
+    from ..cfg import cfg_of, no_exc
+    from ..model import norm as _norm
+    prog = chk.prog
+    n_seen = 0
+    for rq in roots:
+        root = prog.cls(rq)
+        for c in [root] + prog.subclasses(root):
+            for attr, val in list(c.attrs.items()):
+                mutable = isinstance(val, (_ast.List, _ast.Dict, _ast.Set)) or (isinstance(val, _ast.Call) and _norm(val.func) in ('list', 'dict', 'set', 'collections.defaultdict', 'defaultdict', 'collections.deque', 'deque'))
+                if not mutable:
+                    continue
+                n_seen += 1
+                muts = []
+                for k in [c] + prog.subclasses(c):
+                    for f in k.vmethods.values():
+                        for n in _ast.walk(f.node):
+                            if isinstance(n, _ast.Call) and isinstance(n.func, _ast.Attribute) and n.func.attr in MUTATORS and _norm(n.func.value) == f'self.{attr}':
+                                muts.append((f, n))
+                            elif isinstance(n, _ast.Subscript) and isinstance(n.ctx, (_ast.Store, _ast.Del)) and _norm(n.value) == f'self.{attr}':
+                                muts.append((f, n))
+                if not muts:
+                    continue
+                fresh = False
+                for name in ('__init__', 'init'):
+                    g = c.lookup(name)
+                    g = prog.view(g) if g is not None else None
+                    if g is None:
+                        continue
+                    cfg = cfg_of(g)
+                    inst = [m for m in cfg.nodes if m.kind == 'stmt' and isinstance(m.ast, (_ast.Assign, _ast.AnnAssign)) and _norm(m.ast.targets[0] if isinstance(m.ast, _ast.Assign) else m.ast.target) == f'self.{attr}']
+                    if inst and cfg.must_pass(cfg.entry, [cfg.exit], lambda m: m in inst, edge_ok=no_exc):
+                        fresh = True
+                f0, n0 = muts[0]
+                chk.ob(rule, c.qualname, fresh, f'{c.name}.{attr} is a mutable object at class level and is mutated in place ({f0.short}): every instance must get its own in __init__ / init() on every path'
+                       + ('' if fresh else ' -- it does not: all instances share the one object, what one process registers is run / seen by the others'), node=n0, kind=f'class-level-mutable:{attr}', expr=attr)
+    chk.ob(rule, 'processes.Process', True, f'{n_seen} mutable class-level default(s) in the Process hierarchy examined', kind='class-level-mutable-scan')
